@@ -378,15 +378,30 @@ where
             &SendData { data, fport, confirmed },
         )?;
         // Transmit our data packet
-        let ms = self
-            .radio
-            .tx(tx_config, self.radio_buffer.as_ref_for_read())
-            .await
-            .map_err(Error::Radio)?;
+        let ms = match self.radio.tx(tx_config, self.radio_buffer.as_ref_for_read()).await {
+            Ok(ms) => ms,
+            Err(e) => return self.abort_uplink(Error::Radio(e)),
+        };
 
         // Wait for received data within window
         self.timer.reset();
-        Ok(self.rx_downlink(&Frame::Data, ms, &rx_windows).await?.into())
+        match self.rx_downlink(&Frame::Data, ms, &rx_windows).await {
+            Ok(response) => Ok(response.into()),
+            Err(e) => self.abort_uplink(e),
+        }
+    }
+
+    /// Ends an uplink procedure that was cut short by an error. The frame, and with it the
+    /// current FCntUp, has already been handed to the radio, so the counter must never be used
+    /// for another frame: account for the uplink exactly as a procedure without downlink does.
+    fn abort_uplink(
+        &mut self,
+        error: Error<R::PhyError>,
+    ) -> Result<SendResponse, Error<R::PhyError>> {
+        match self.mac.rx2_complete() {
+            mac::Response::SessionExpired => Ok(SendResponse::SessionExpired),
+            _ => Err(error),
+        }
     }
 
     /// Take the downlink data from the device. This is typically called after a
